@@ -141,4 +141,4 @@ partial def c08EinsumLoop (h : IO.FS.Stream) : IO Unit := do
   | _ => IO.println "bad-op"
   c08EinsumLoop h
 
-def main : IO Unit := do c08EinsumLoop (← IO.getStdin)
+-- `main` (line-protocol entry point) lives in Ampverif/Drivers/C08Einsum.lean
